@@ -436,6 +436,17 @@ inline int run(int argc, char** argv, const std::vector<Scenario>& scs) {
     long bound_override = A.opt_int("bound", -1);
     long bound_delta = A.opt_int("bound_delta", 0);  // e.g. -1 for the TSan build
     int sc_index = -1;
+    // diagnostic (VX_TIMING=1): wall time per scenario class = family / number of ':' in the name / explicit-state
+    std::map<std::string, double> timing;
+    std::string timing_key;
+    double timing_t0 = 0;
+    auto timing_flush = [&](const std::string& next) {
+        if (!getenv("VX_TIMING")) return;
+        double now = vh::now();
+        if (!timing_key.empty()) timing[timing_key] += now - timing_t0;
+        timing_key = next;
+        timing_t0 = now;
+    };
     for (const Scenario& sc : scs) {
         ++sc_index;
         if (!only.empty() && sc.name.find(only) == std::string::npos) continue;
@@ -446,6 +457,7 @@ inline int run(int argc, char** argv, const std::vector<Scenario>& scs) {
             vh::cap("deadline reached: scenario " + sc.name + " and later ones not explored");
             break;
         }
+        timing_flush(vh::fmt("%s/%d%s", sc.family.c_str(), (int)std::count(sc.name.begin(), sc.name.end(), ':'), sc.stateful ? "/X" : ""));
         int B = A.thorough() ? sc.bound_thorough : sc.bound_quick;
         B += (int)bound_delta;
         if (B < 0) B = 0;
@@ -521,6 +533,8 @@ inline int run(int argc, char** argv, const std::vector<Scenario>& scs) {
             }
         }
     }
+    timing_flush("");
+    for (auto& kv : timing) vh::note(vh::fmt("timing %s: %.1f s", kv.first.c_str(), kv.second));
     stop_worker();
     return vh::finish();
 }
